@@ -125,7 +125,7 @@ def eval_hashes(env, specs, obss, chunk=400):
     """one hash per case over all model observation lines"""
     hs, err = _eval(env, specs, obss, "map observe_hash", chunk, ints=True)
     if hs is None or len(hs) != len(specs):
-        return None, err or "model produced %d hashes for %d cases" % (len(hs), len(specs))
+        return None, err or ("model evaluation failed without output (killed / timed out)" if hs is None else "model produced %d hashes for %d cases" % (len(hs), len(specs)))
     return hs, ""
 
 
